@@ -28,6 +28,9 @@ def main():
     if "--round3" in sys.argv:
         src = "/tmp/w3-%s-out" % pid
         tag = "r3m"
+    if "--round4" in sys.argv:
+        src = "/tmp/w4-%s-out" % pid
+        tag = "r4m"
     patch = os.path.join(src, "m%s.diff" % n)
     demo = os.path.join(src, "m%s_demo.rs" % n)
     if "--demo" in sys.argv:
@@ -68,11 +71,11 @@ def main():
     shutil.copy(demo, os.path.join(d, "demo.rs"))
     needs = sys.argv[sys.argv.index("--needs") + 1] if "--needs" in sys.argv else ""
     what = sys.argv[sys.argv.index("--what") + 1] if "--what" in sys.argv else ""
-    meta = {"property": pid, "origin": "independent sub-agent given only the property text and a scratch worktree" + ("; round 3 (after the size ladders and the other round-2 strengthening were in place)" if tag == "r3m" else "") + ("; round 2: additionally told, in generic terms, that the checker is a corpus + random differential tester with laws, and asked for changes such a tester could miss" if tag == "r2m" else ""),
+    meta = {"property": pid, "origin": "independent sub-agent given only the property text and a scratch worktree" + ("; round 4 (process-level properties only, after all earlier strengthening)" if tag == "r4m" else "") + ("; round 3 (after the size ladders and the other round-2 strengthening were in place)" if tag == "r3m" else "") + ("; round 2: additionally told, in generic terms, that the checker is a corpus + random differential tester with laws, and asked for changes such a tester could miss" if tag == "r2m" else ""),
             "what": what, "needs_to_manifest": needs,
             "confirmed": {"baseline_tests_with_patch": "%d passed (cargo test --workspace --no-fail-fast --offline)" % passed,
                           "demo_with_patch": (wl[-1] if wl else "failed to build/run") , "demo_without_patch": ol[-1] if ol else "",
-                          "how": "python3 pylane/verify_mutant.py %s %s%s (private worktree /tmp/vfy; demo copied to tests/ and run with cargo test --test)" % (pid, n, " --round2" if tag == "r2m" else (" --round3" if tag == "r3m" else ""))},
+                          "how": "python3 pylane/verify_mutant.py %s %s%s (private worktree /tmp/vfy; demo copied to tests/ and run with cargo test --test)" % (pid, n, " --round2" if tag == "r2m" else (" --round3" if tag == "r3m" else (" --round4" if tag == "r4m" else "")))},
             "also_run": []}
     if "--also" in sys.argv:
         meta["also_run"] = sys.argv[sys.argv.index("--also") + 1].split(",")
